@@ -760,8 +760,17 @@ def _requirement_violation(ctx, pid, cfg, uni, r, judge):
         _report(ctx, pid, cfg, out["mismatch"], [], script)
 
 
+def cli_front(ctx, pid):
+    """the same property as a user of the command line meets it (spec/workspace/Cli.tla, harness/clifront.py)"""
+    from . import clifront
+    clifront.run(ctx, pid)
+
+
 def replay_script(ctx, pid, data):
     """./check Cxx --replay file"""
+    if data.get("front") == "cli":
+        from . import clifront
+        return clifront.replay_script(ctx, data)
     uni = W.Universe(spelling=data.get("spelling", "int"))
     projects = tuple(data.get("projects", ["P"]))
     w = World2(uni, projects, base=ctx.work)
@@ -1024,7 +1033,8 @@ def run_recorded(ctx, pid, name, n, length, ops, spelling="wide", keys=("a", "b"
             f.write(json.dumps(tr) + "\n")
     consts = {"Projects": tlc.lit(set(projects)), "Keys": tlc.lit(set(keys)), "Vals": tlc.lit(set(vals)), "Handles": tlc.lit(set(handles)),
               "DocVals": tlc.lit({"d1", "d2"}), "FileNames": tlc.lit({"f1", "f2"}), "FVals": tlc.lit({"c1", "c2"}), "MaxDepth": 10**6,
-              "IdOrder": "<- IdOrderDef", "Ops": "<- OpsDef", "InitJobs": "<- InitJobsDef", "InitCache": "<- InitCacheDef"}
+              "IdOrder": "<- IdOrderDef", "Ops": "<- OpsDef", "InitJobs": "<- InitJobsDef", "InitCache": "<- InitCacheDef",
+              "FixedD3": tlc.lit(W.probe_d3()), "FixedD4": tlc.lit(W.probe_d4())}
     cfg = tlc.cfg(consts, init="TrInit", next="TrNext", constraints=["Track"], postcondition="Post",
                   invariants=["TraceHashInvX", "TraceCheckX"] if not set(ops) & {"corrupt", "corrupt_other", "rename_dir"} else [])
     r = tlc.run(os.path.join(d, "TR.tla"), cfg_text=cfg, workdir=d, workers=1, env={"TRACE_FILE": fn}, coverage=False, timeout=3600)
